@@ -53,6 +53,11 @@ pub trait Intersect {
 
 pub trait Potential {
     fn energy(&self, other: &Self) -> f64;
+
+    /// The separation of two shapes beyond which their energy is zero, where there is one
+    fn interaction_range(&self) -> Option<f64> {
+        None
+    }
 }
 
 pub trait Shape:
